@@ -1697,7 +1697,19 @@ pub fn compile_grouping_key(
 
         if gk_plan.is_nullable() {
             gk_plan = match offset {
-                Some(offset) => planner.fuse_int_nulls(offset, gk_plan),
+                Some(offset) => {
+                    // FuseIntNulls computes `value + offset` in the key's own integer type: widen first if that does not fit
+                    let type_max = match gk_plan.tag.non_nullable() {
+                        EncodingType::U8 => i64::from(u8::MAX),
+                        EncodingType::U16 => i64::from(u16::MAX),
+                        EncodingType::U32 => i64::from(u32::MAX),
+                        _ => i64::MAX,
+                    };
+                    if encoding_range.is_some_and(|(_, max)| max.saturating_add(offset) > type_max) {
+                        gk_plan = planner.cast(gk_plan, EncodingType::I64);
+                    }
+                    planner.fuse_int_nulls(offset, gk_plan)
+                }
                 None => planner.fuse_nulls(gk_plan),
             }
         } else if let Some(offset) = offset {
@@ -1849,12 +1861,13 @@ fn try_bitpacking(
             };
             order_preserving = order_preserving && plan_type.is_order_preserving();
             let mut adjusted_query_plan = if query_plan.is_nullable() {
-                let fused = planner.fuse_int_nulls(-min + 1, query_plan);
-                if fused.tag != EncodingType::I64 {
-                    planner.cast(fused, EncodingType::I64).i64()?
+                // widen before fusing: FuseIntNulls computes `value - min + 1` in the key's own integer type
+                let widened = if query_plan.tag.non_nullable() != EncodingType::I64 {
+                    planner.cast(query_plan, EncodingType::I64)
                 } else {
-                    fused.i64()?
-                }
+                    query_plan
+                };
+                planner.fuse_int_nulls(-min + 1, widened).i64()?
             } else if subtract_offset {
                 let offset = planner.scalar_i64(-min, true);
                 planner.add(query_plan, offset.into()).i64()?
